@@ -28,6 +28,7 @@ import (
 
 	"github.com/refraction-networking/conjure/pkg/station/log"
 	pb "github.com/refraction-networking/conjure/proto"
+	"google.golang.org/protobuf/proto"
 	"pgregory.net/rapid"
 	"verif/harness/vh"
 )
@@ -50,6 +51,8 @@ type c09Actor struct {
 	Live   bool   `json:"live,omitempty"`   // ingest: verdict of this actor's liveness probe
 	Policy int    `json:"policy,omitempty"` // reload: 0 = initial policy, 1 = policy that also forbids ok2
 	AgeS   int64  `json:"age_s,omitempty"`  // sweep: this much time has passed (for every tracked registration) when the sweep starts
+	V6     bool   `json:"v6,omitempty"`     // ingest / lookup: IPv6 phantom (never probed for liveness)
+	Pre    bool   `json:"pre,omitempty"`    // ingest: the registration is flagged pre-scanned (never probed)
 }
 
 type c09Scenario struct {
@@ -195,8 +198,15 @@ func c09KeyOf(e *vEnv, reg *DecoyRegistration) string {
 func shortTT(t pb.TransportType) string { return strings.ToLower(t.String()) }
 
 func c09MakeReg(e *vEnv, secret, tt int, covert string) (*DecoyRegistration, error) {
-	w := vWrapper(vSecret(secret), c09TT[tt], 0, covert, true, false, 4, 957, pb.RegistrationSource_API, net.ParseIP("198.51.100.7").To4())
-	return e.rm.NewRegistrationC2SWrapper(w, false)
+	return c09MakeRegX(e, secret, tt, covert, false, false)
+}
+
+func c09MakeRegX(e *vEnv, secret, tt int, covert string, v6, prescanned bool) (*DecoyRegistration, error) {
+	w := vWrapper(vSecret(secret), c09TT[tt], 0, covert, !v6, v6, 4, 957, pb.RegistrationSource_API, net.ParseIP("198.51.100.7").To4())
+	if prescanned {
+		w.RegistrationPayload.Flags.Prescanned = proto.Bool(true)
+	}
+	return e.rm.NewRegistrationC2SWrapper(w, v6)
 }
 
 // c09Init builds the initial state (serially, through the real code).
@@ -259,7 +269,7 @@ func c09RunPhase(w *c09World, rm *RegistrationManager, idx int, a c09Actor, phas
 	e := w.e
 	switch a.Kind {
 	case "ingest":
-		reg, err := c09MakeReg(e, a.Secret, a.TT, c09Coverts[a.Covert])
+		reg, err := c09MakeRegX(e, a.Secret, a.TT, c09Coverts[a.Covert], a.V6, a.Pre)
 		if err != nil {
 			return "harness-error:" + err.Error()
 		}
@@ -279,7 +289,7 @@ func c09RunPhase(w *c09World, rm *RegistrationManager, idx int, a c09Actor, phas
 		return "swept"
 	case "lookup":
 		if phase == 0 {
-			reg, err := c09MakeReg(e, a.Secret, a.TT, c09Coverts["ok1"])
+			reg, err := c09MakeRegX(e, a.Secret, a.TT, c09Coverts["ok1"], a.V6, false)
 			if err != nil {
 				return "harness-error:" + err.Error()
 			}
@@ -935,6 +945,10 @@ func c09Scenarios() []c09Scenario {
 	return []c09Scenario{
 		// the same registration delivered twice
 		{Actors: []c09Actor{{Kind: "ingest", Secret: 1, Covert: "ok1"}, {Kind: "ingest", Secret: 1, Covert: "ok1"}}},
+		// ... on an IPv6 phantom / flagged pre-scanned (no liveness probe between track and validate)
+		{Actors: []c09Actor{{Kind: "ingest", Secret: 1, Covert: "ok1", V6: true}, {Kind: "ingest", Secret: 1, Covert: "ok1", V6: true}}},
+		{Actors: []c09Actor{{Kind: "ingest", Secret: 1, Covert: "ok1", Pre: true}, {Kind: "ingest", Secret: 1, Covert: "ok1", Pre: true}, {Kind: "lookup", Secret: 1}}},
+		{Actors: []c09Actor{{Kind: "ingest", Secret: 1, Covert: "bad", V6: true}, {Kind: "ingest", Secret: 1, Covert: "ok1", V6: true}, {Kind: "lookup", Secret: 1, V6: true}}},
 		// same key, different covert (one forbidden by policy)
 		{Actors: []c09Actor{{Kind: "ingest", Secret: 1, Covert: "bad"}, {Kind: "ingest", Secret: 1, Covert: "ok1"}}},
 		{Actors: []c09Actor{{Kind: "ingest", Secret: 1, Covert: "malformed"}, {Kind: "ingest", Secret: 1, Covert: "ok2"}}},
@@ -1007,9 +1021,12 @@ func c09GenScenario(rt *rapid.T) c09Scenario {
 			a.TT = rapid.SampledFrom([]int{0, 0, 1}).Draw(rt, "tt")
 			a.Covert = rapid.SampledFrom([]string{"ok1", "ok1", "ok2", "bad", "malformed"}).Draw(rt, "covert")
 			a.Live = rapid.IntRange(0, 3).Draw(rt, "live") == 0
+			a.V6 = rapid.IntRange(0, 3).Draw(rt, "v6") == 0
+			a.Pre = rapid.IntRange(0, 3).Draw(rt, "prescanned") == 0
 		case "lookup":
 			a.Secret = rapid.SampledFrom([]int{1, 2, 5, 6, 7}).Draw(rt, "secret")
 			a.TT = rapid.SampledFrom([]int{0, 0, 1}).Draw(rt, "tt")
+			a.V6 = rapid.IntRange(0, 3).Draw(rt, "v6") == 0
 		case "reload":
 			a.Policy = rapid.IntRange(0, 1).Draw(rt, "policy")
 		}
